@@ -338,7 +338,9 @@ impl ConsumeUnverifiedBlockProcessor {
             );
 
             db_txn.insert_tip_header(&block.header())?;
-            if new_epoch || fork.has_detached() {
+            // more than one attached block: the tip advanced over blocks verified earlier
+            // (a truncated branch extended again) and may have crossed an epoch boundary
+            if new_epoch || fork.has_detached() || fork.attached_blocks().len() > 1 {
                 db_txn.insert_current_epoch_ext(&epoch)?;
             }
         } else {
